@@ -24,13 +24,13 @@ Lemma float_site_spec pow now bt pr rate tr rec x p t' r' :
   float_site pow now bt pr rate tr rec = Ok (Updated x p t' r') ->
   0 <= now - bt /\ x = cmp_new pow pr rate (now - bt) /\ site_carry tr x = (p, t') /\ r' = rec + p.
 Proof.
-  unfold float_site. destruct (calculation_of_rewards pow now bt pr rate) as [y| |] eqn:E; try discriminate.
+  unfold float_site, float_site_with. destruct (calculation_of_rewards pow now bt pr rate) as [y| |] eqn:E; try discriminate.
   apply calc_spec in E as [E0 E1]. destruct (site_carry tr y) as [q u] eqn:C.
   intros H. injection H as <- <- <- <-. subst y. auto.
 Qed.
 Lemma float_site_never_untouched pow now bt pr rate tr rec : float_site pow now bt pr rate tr rec <> Ok Untouched.
 Proof.
-  unfold float_site. destruct (calculation_of_rewards _ _ _ _ _); try discriminate.
+  unfold float_site, float_site_with. destruct (calculation_of_rewards _ _ _ _ _); try discriminate.
   destruct (site_carry tr a). discriminate.
 Qed.
 
@@ -51,9 +51,9 @@ Lemma vault_interest_spec pow now v x p t' r' :
   0 <= now - vault_bt v /\ x = cmp_new pow (vs_debt v) (vs_fee v) (now - vault_bt v) /\
   site_carry (vs_tracker v) x = (p, t') /\ r' = vs_intacc v + p.
 Proof.
-  unfold vault_interest, vault_bt. destruct (vs_app_ok v); [|discriminate]. destruct (vs_pair_found v); [|discriminate].
+  unfold vault_interest, vault_interest_with, vault_bt. destruct (vs_app_ok v); [|discriminate]. destruct (vs_pair_found v); [|discriminate].
   cbn [negb]. destruct (Z.eqb_spec (vs_fee v) 0); [discriminate|]. destruct (vs_stable_mint v); [discriminate|]. cbn [orb].
-  intros H. apply float_site_spec in H. tauto.
+  intros H. fold (float_site pow) in H. apply float_site_spec in H. tauto.
 Qed.
 
 (* ---------------- locker ---------------- *)
@@ -65,7 +65,7 @@ Lemma locker_rewards_spec pow now l x p t' net ret nf :
   site_carry (ls_tracker l) x = (p, t') /\
   net = ls_net l + p /\ ret = ls_returns l + p /\ nf = tracker_val (ls_netfee l) - p /\ (0 < p -> 0 <= nf).
 Proof.
-  unfold locker_rewards, locker_bt. destruct (ls_reward_ok l); [|discriminate]. destruct (ls_coll_found l); [|discriminate].
+  unfold locker_rewards, locker_rewards_with, locker_bt. destruct (ls_reward_ok l); [|discriminate]. destruct (ls_coll_found l); [|discriminate].
   cbn [negb]. destruct (Z.eqb_spec (ls_lsr l) 0); [discriminate|].
   destruct (calculation_of_rewards _ _ _ _ _) as [y| |] eqn:E; try discriminate.
   apply calc_spec in E as [E0 E1]. destruct (site_carry (ls_tracker l) y) as [q u] eqn:C.
@@ -208,4 +208,26 @@ Proof.
   split.
   - rewrite <- (K (Z.min bapr sapr)) at 1. apply dquo_mono_l; nia.
   - rewrite <- (K (Z.max bapr sapr)) at 1. apply dquo_mono_l; nia.
+Qed.
+
+(* ---------------- the executable forms the correspondence run uses ---------------- *)
+From Comdex Require Import Model.AccrualFast Proofs.AccrualFastProofs.
+Lemma vault_interest_fast_eq pow now v :
+  vault_interest_with (calculation_of_rewards_fast pow) now v = vault_interest pow now v.
+Proof.
+  unfold vault_interest, vault_interest_with, float_site_with.
+  destruct (negb (vs_app_ok v)); [reflexivity|]. destruct (negb (vs_pair_found v)); [reflexivity|].
+  destruct (_ || _); [reflexivity|]. rewrite calculation_of_rewards_fast_eq. reflexivity.
+Qed.
+Lemma vault_iterate_one_fast_eq pow now lsr cbt vbh vbt amt tr ia :
+  vault_iterate_one_with (calculation_of_rewards_fast pow) now lsr cbt vbh vbt amt tr ia = vault_iterate_one pow now lsr cbt vbh vbt amt tr ia.
+Proof.
+  unfold vault_iterate_one, vault_iterate_one_with, float_site_with. rewrite calculation_of_rewards_fast_eq. reflexivity.
+Qed.
+Lemma locker_rewards_fast_eq pow now l :
+  locker_rewards_with (calculation_of_rewards_fast pow) now l = locker_rewards pow now l.
+Proof.
+  unfold locker_rewards, locker_rewards_with.
+  destruct (negb (ls_reward_ok l)); [reflexivity|]. destruct (negb (ls_coll_found l)); [reflexivity|].
+  destruct (ls_lsr l =? 0); [reflexivity|]. rewrite calculation_of_rewards_fast_eq. reflexivity.
 Qed.
